@@ -10,7 +10,9 @@
   the substitution maps of the rules whose region contains `p`, in rule order.
 -/
 import FontcProofs.FeatVarsWitness
+import FontcProofs.FeatVarsWitness2
 import FontcProofs.FeatVarsWordVal
+import FontcProofs.FeatVarsWordFixed
 
 namespace Fontc.C16
 open Fontc Fontc.FeatVars
@@ -194,6 +196,71 @@ theorem first_match_words_counterexample : ¬ WordsFullStatement := by
   revert this
   decide
 
+/-! ## 4. The whole function `overlay_feature_variations` (merge passes included) against the source rules -/
+
+/-- **The property for the whole function**, for source rules whose substitution maps are maps (unique keys):
+    the function returns normally, and at every point `p` of the cube that is not on a degenerate touching
+    boundary and where the active rules do not substitute the same glyph differently, the glyph map applied by
+    the first matching box (earlier map wins) equals the glyph map of the rules whose region contains `p`,
+    combined in rule order with earlier rules taking precedence. -/
+theorem overlay_effective (n : Nat) (rules : List Rule) (hok : RulesOk n rules) (hu : ∀ r ∈ rules, SubsUniq r.2) :
+    ∃ out, overlayFeatureVariations natOps n rules = some out ∧
+      ∀ p : Point, p.length = n → InCube p → ¬ OnTouchingBoundary (rules.flatMap (·.1)) p → NoConflict rules p →
+        ∀ g, effective ((firstMatch out p).getD []) g = effective (activeSubs rules p) g :=
+  overlay_effective_generic n rules hok hu (natLaw _)
+
+/-- the same with the code's word-vector rank, when at most 64 rules remain after the two merge passes -/
+theorem overlay_effective_words_partial (n : Nat) (rules : List Rule) (hok : RulesOk n rules)
+    (hu : ∀ r ∈ rules, SubsUniq r.2) (h64 : (mergedRules rules).length ≤ 64) :
+    ∃ out, overlayFeatureVariations wordOps n rules = some out ∧
+      ∀ p : Point, p.length = n → InCube p → ¬ OnTouchingBoundary (rules.flatMap (·.1)) p → NoConflict rules p →
+        ∀ g, effective ((firstMatch out p).getD []) g = effective (activeSubs rules p) g :=
+  overlay_effective_generic n rules hok hu (wordLaw64 _ h64)
+
+/-- The `NoConflict` hypothesis cannot be dropped: "earlier rules take precedence" is **not** kept when two
+    simultaneously active rules substitute the same glyph (genuine, inherited from fontTools):
+    rules A: 1→11 on [0,1], B: 1→12 on [-1/2,1/2], C: 2→13 on [0,1].  `merge_same_region_rules` files A+C at C's
+    position, after B, so at 1/4 the first matching box lists B before A and glyph 1 becomes 12, not 11. -/
+theorem precedence_counterexample :
+    RulesOk 1 precRules ∧ ¬ OnTouchingBoundary (precRules.flatMap (·.1)) [1/4] ∧
+    effective (activeSubs precRules [1/4]) 1 = some 11 ∧
+    effective ((firstMatch ((overlayFeatureVariations natOps 1 precRules).getD []) [1/4]).getD []) 1 = some 12 :=
+  ⟨precRules_ok, prec_off_boundary, prec_first_match.1, prec_first_match.2.2⟩
+
+/-- The hypothesis "every region has at least one box" (`RulesOk.nonempty`) cannot be dropped either: a rule
+    without any condition set makes the function forget every rule before it (genuine, inherited from
+    fontTools): here rule 0 is active at 1/2 but the output is empty. -/
+theorem empty_region_counterexample :
+    activeSubs emptyRegionRules [1/2] = [[(1, 11)]] ∧
+    (overlayFeatureVariations natOps 1 emptyRegionRules).map List.length = some 0 :=
+  emptyRegion_first_match
+
+/-! ## 5. The proposed fix (`/verif/fixes/C16-rank.patch`: `count_ones` sort key, `|=` aligned at the low end) -/
+
+/-- with the patched operations the refinement of §3 holds for **all** word vectors -/
+theorem rank_fixed_refines (a b : WRank) :
+    (WRank.bitor a b).val = a.val ||| b.val ∧
+    (WRank.bitorAssignFixed a b).val = a.val ||| b.val ∧
+    (wordOpsFixed.le a b = natOps.le a.val b.val) := by
+  refine ⟨val_bitor a b, val_bitorAssignFixed a b, ?_⟩
+  show decide (b.countOnes ≤ a.countOnes) = decide (popcount b.val ≤ popcount a.val)
+  rw [countOnes_eq_popcount, countOnes_eq_popcount]
+
+/-- … and `first_match_is_T` holds for the patched word-vector rank for every number of rules. -/
+theorem first_match_is_T_words_fixed (n : Nat) (cs : List Rule) (hok : RulesOk n cs) :
+    ∃ out, overlayCore wordOpsFixed n cs = some out ∧
+      ∀ p : Point, p.length = n → ¬ OnTouchingBoundary (cs.flatMap (·.1)) p →
+        (firstMatch out p).getD [] = activeSubs cs p :=
+  first_match_generic n cs (wordLawFixed cs.length) hok
+
+/-- the whole function with the patched rank, no bound on the number of rules -/
+theorem overlay_effective_words_fixed (n : Nat) (rules : List Rule) (hok : RulesOk n rules)
+    (hu : ∀ r ∈ rules, SubsUniq r.2) :
+    ∃ out, overlayFeatureVariations wordOpsFixed n rules = some out ∧
+      ∀ p : Point, p.length = n → InCube p → ¬ OnTouchingBoundary (rules.flatMap (·.1)) p → NoConflict rules p →
+        ∀ g, effective ((firstMatch out p).getD []) g = effective (activeSubs rules p) g :=
+  overlay_effective_generic n rules hok hu (wordLawFixed _)
+
 /-! ## Non-vacuity: the hypotheses of each theorem are satisfiable -/
 
 example : BoxOk [some (0, 1/2)] ∧ BoxOk [none] ∧ [some ((0 : Rat), (1/2 : Rat))].length = [(none : Option Range)].length :=
@@ -202,5 +269,24 @@ example : RulesOk 1 touchRules ∧ ([1/4] : Point).length = 1 ∧ ¬ OnTouchingB
   ⟨touchRules_ok, rfl, touch_off_boundary⟩
 example : RulesOk 1 touchRules ∧ touchRules.length ≤ 64 := ⟨touchRules_ok, by decide⟩
 example : ([1] : WRank).length = ([2] : WRank).length := rfl
+
+example : RulesOk 1 touchRules ∧ (∀ r ∈ touchRules, SubsUniq r.2) ∧ InCube [1/4] ∧
+    ¬ OnTouchingBoundary (touchRules.flatMap (·.1)) [1/4] ∧ NoConflict touchRules [1/4] := by
+  refine ⟨touchRules_ok, ?_, ?_, touch_off_boundary, ?_⟩
+  · intro r hr
+    simp [touchRules] at hr
+    rcases hr with rfl | rfl <;> simp [SubsUniq]
+  · intro x hx
+    have : x = 1/4 := by simpa using hx
+    subst this
+    constructor <;> decide +kernel
+  · rintro g x y ⟨r, hr, ha, hx⟩ ⟨r', hr', ha', hy⟩
+    simp [touchRules] at hr hr'
+    have e2 : regionContains [[some ((1/2 : Rat), (1 : Rat))]] [1/4] = false := by decide +kernel
+    rcases hr with rfl | rfl <;> rcases hr' with rfl | rfl
+    · rw [hx] at hy; cases hy; rfl
+    · rw [e2] at ha'; cases ha'
+    · rw [e2] at ha; cases ha
+    · rw [hx] at hy; cases hy; rfl
 
 end Fontc.C16
